@@ -20,7 +20,7 @@ PROP = "C01"
 LEAN = {"module": "Pygom.Props.C01",
         "required": ["Pygom.C01.ode_entry", "Pygom.C01.vmat_entry", "Pygom.C01.rate_entry", "Pygom.C01.pure_entry",
                      "Pygom.C01.ode_eq_vmat_mul_rates", "Pygom.C01.reactant_entry", "Pygom.C01.derived_subst",
-                     "Pygom.C01.stateIndex_error_iff"]}
+                     "Pygom.C01.stateIndex_error_iff", "Pygom.C01.assemble_spec", "Pygom.C01.resolveEvents_wf"]}
 BUDGET = {"quick": {"models": 160, "cython": 3, "malformed": 24},
           "thorough": {"models": 3000, "cython": 40, "malformed": 300}}
 RULE = ("random model definitions (1-5 states incl. range-style names, 1-5 params, 0-5 events of 1-3 B/D/T transitions, numeric "
